@@ -146,7 +146,15 @@ impl<'a, 'b> Generator<'a, 'b> {
                     iis!(self, t, "__VARIANT{{ \"{}\", {} }}", v, self.expand(a))
                 }
 
-                IR::Index(t, a, i) => ii!(self, t, "__INDEX({}, {})", a, i),
+                // Reads of fields and elements are not inlined at their use: a
+                // call evaluated in between could change what they read.
+                IR::Index(t, a, i) => {
+                    if self.usage_count.get(t).unwrap_or(&0) > &0 {
+                        let a = self.expand(a).to_string();
+                        let i = self.expand(i);
+                        write!(self.out, "local {} = __INDEX({}, {})", t.format(), a, i);
+                    }
+                }
 
                 IR::Function(f, params) => {
                     write!(self.out, "local ");
@@ -230,7 +238,12 @@ impl<'a, 'b> Generator<'a, 'b> {
                     write!(self.out, "__CRASH(\"{}\")()", msg);
                 }
 
-                IR::Access(t, a, f) => iis!(self, t, "{}.{}", self.expand(a), f),
+                IR::Access(t, a, f) => {
+                    if self.usage_count.get(t).unwrap_or(&0) > &0 {
+                        let a = self.expand(a);
+                        write!(self.out, "local {} = {}.{}", t.format(), a, f);
+                    }
+                }
 
                 IR::Copy(t, a) => {
                     if self.usage_count.get(t).unwrap_or(&0) > &0 {
